@@ -295,7 +295,7 @@ Qed.
 
 Lemma no_conflict_single : no_conflict I.
 Proof.
-apply/allP => c; rewrite mem_iota add0n /= => hc; apply/hasP; exists 0 => //.
+apply/allP => c; rewrite mem_iota add0n => /andP[_ hc]; apply/hasP; exists 0 => //.
 by rewrite /allowed mk_cc_single.
 Qed.
 
@@ -361,3 +361,47 @@ exists beta, tau; split=> //.
   by rewrite /Mec.het (hwh _ _ _ _ h1) /=; apply/eqP.
 Qed.
 End Chain.
+
+(* the same statement in stdlib vocabulary (for props/C02.v) *)
+Theorem solver_reproduces_truth_std :
+  forall (n : nat) (rs : list read) (truth : Mec.haps) (origin : list bool),
+  let I := single n rs in
+  let reads := mec_reads I in
+  wf I = true ->
+  (forall r, List.In r reads -> Mec.positive r) ->
+  Mec.error_free truth origin reads = true ->
+  (forall c, (exists r, List.In r reads /\ Mec.covers r c) -> Mec.het truth c) ->
+  exists (beta : list bool) (tau : list nat),
+    let h := witness_haps I beta in
+    dp_witness I = Some (beta, tau) /\
+    dp_cost I = Cost (Some 0) /\
+    Mec.cost h beta reads = 0 /\
+    (forall c, (exists r, List.In r reads /\ Mec.covers r c) ->
+       exists k0 k1 q,
+         get_alleles I c (restrict (active I c) beta) 0 = Some (cons (k0, k1, q) nil) /\
+         k0 <> 3 /\ k1 <> 3) /\
+    (forall c c', (exists r, List.In r reads /\ Mec.covers r c) ->
+       (exists r, List.In r reads /\ Mec.covers r c') ->
+       Mec.connected reads c c' ->
+       (Mec.same_at h truth c /\ Mec.same_at h truth c') \/
+       (Mec.swapped_at h truth c /\ Mec.swapped_at h truth c')).
+Proof.
+move=> n rs truth origin I reads hwf hpos hef hhet.
+have [beta [tau [h1 h2 h3 h4 h5]]] := @solver_reproduces_truth n rs truth origin hwf hpos hef hhet.
+exists beta, tau; split=> //; split=> //; split=> //; split=> //.
+move=> c hc; have [k0 [k1 [q [e1 e2 e3]]]] := h4 c hc.
+by exists k0, k1, q; split=> //; split; apply/eqP.
+Qed.
+
+(* non-vacuity: three error-free reads over four heterozygous columns in two components *)
+Example single_example :
+  let rs := [:: MkRead 0 0 [:: Some (false, 5); Some (true, 7)];
+               MkRead 0 0 [:: Some (true, 3); Some (false, 3)];
+               MkRead 0 2 [:: Some (true, 9); Some (false, 1)]] in
+  let I := single 4 rs in
+  [/\ wf I, mec_reads I = [:: [:: (0, false, 5); (1, true, 7)]; [:: (0, true, 3); (1, false, 3)];
+                              [:: (2, true, 9); (3, false, 1)]],
+      dp_cost I = Cost (Some 0), dp_witness I = Some ([:: true; false; false], [:: 0; 0; 0; 0])
+    & [seq witness_haps I [:: true; false; false] c | c <- iota 0 4]
+      = [:: (true, false); (false, true); (true, false); (false, true)]].
+Proof. by vm_compute. Qed.
